@@ -7,7 +7,7 @@
     The model follows the patcher AFTER repo commit 261a579 (fix: skipFile follows the series
     kind).  Before it the statement was false: see [skip_v0_desync] below and the corpus case
     of harness/cmd/wharfobs/c17.go. *)
-From Wharf Require Import Base.Prelude Bowl.Fresh Patch.Reinterp Patch.ReinterpProofs Patch.Stream Patch.Patcher
+From Wharf Require Import Base.Prelude Bowl.Fresh Bowl.FreshProofs Patch.Reinterp Patch.ReinterpProofs Patch.Stream Patch.Patcher
      Patch.Whitelist Patch.PatcherProofs Patch.WhitelistProofs.
 Local Open Scope Z_scope.
 
@@ -31,6 +31,12 @@ Theorem whitelist_exact :
       (forall i p sz, wl_mem W i = true -> znth (c_files newC) i = Some (p, sz) -> tlookup tW p = tlookup t p).
 Proof. exact whitelist_exact_lemma. Qed.
 Print Assumptions whitelist_exact.
+
+(** the executable test the correspondence evaluates on the new container of every patch the
+    harness makes a C17 claim about implies the hypothesis [wf_container] *)
+Theorem wf_container_test_sound : forall c, wf_containerb c = true -> wf_container c.
+Proof. exact wf_containerb_sound. Qed.
+Print Assumptions wf_container_test_sound.
 
 (** ... in particular every GetWriter / Transpose of the whitelisted run names a selected file *)
 Theorem whitelist_bowl_calls_selected_only :
